@@ -355,7 +355,7 @@ var solvers = []solverSpec{
 var slowLog = os.Getenv("GOVC_SLOW") != ""
 
 var (
-	solverSem     = make(chan struct{}, 20)
+	solverSem     = make(chan struct{}, 24)
 	cacheMu       sync.Mutex
 	queryCache    = map[string]*SolveResult{}
 	inflight      = map[string]chan struct{}{}
